@@ -365,8 +365,66 @@ def t_hworder(tree):
     return tree
 
 
+def t_props(tree):
+    """Inside a class, a read of `self._x` becomes `self.x` when the class has a property `x` whose body is `return self._x` (and the
+    read is not in that property, in `__init__`, or a store)."""
+    for cls in [c for c in ast.walk(tree) if isinstance(c, ast.ClassDef)]:
+        props = {}
+        for fn in cls.body:
+            if isinstance(fn, ast.FunctionDef) and any(isinstance(d, ast.Name) and d.id == "property" for d in fn.decorator_list):
+                body = [s for s in fn.body if not (isinstance(s, ast.Expr) and isinstance(s.value, ast.Constant))]
+                if len(body) == 1 and isinstance(body[0], ast.Return) and isinstance(body[0].value, ast.Attribute) and \
+                        isinstance(body[0].value.value, ast.Name) and body[0].value.value.id == "self":
+                    props[body[0].value.attr] = fn.name
+        if not props:
+            continue
+        for fn in cls.body:
+            if not isinstance(fn, ast.FunctionDef) or fn.name in ("__init__", "__new__") or fn.name in props.values():
+                continue
+            for n in ast.walk(fn):
+                if isinstance(n, ast.Attribute) and isinstance(n.ctx, ast.Load) and isinstance(n.value, ast.Name) and n.value.id == "self" and \
+                        n.attr in props:
+                    n.attr = props[n.attr]
+    return tree
+
+
+def t_comp2loop(tree):
+    """`x = [E for T in S if C]` (a statement, one generator, `x` a plain name) -> `x = []` / `for T in S: if C: x.append(E)`."""
+    def walk(stmts, fn):
+        i = 0
+        while i < len(stmts):
+            st = stmts[i]
+            for fld in ("body", "orelse", "finalbody"):
+                b = getattr(st, fld, None)
+                if isinstance(b, list) and b and isinstance(b[0], ast.stmt) and not isinstance(st, (ast.FunctionDef, ast.ClassDef)):
+                    walk(b, fn)
+            if isinstance(st, ast.Assign) and len(st.targets) == 1 and isinstance(st.targets[0], ast.Name) and isinstance(st.value, ast.ListComp) and \
+                    len(st.value.generators) == 1 and not st.value.generators[0].is_async:
+                g = st.value.generators[0]
+                bound = {n.id for n in ast.walk(g.target) if isinstance(n, ast.Name)}
+                inside = {id(n) for n in ast.walk(st.value)}
+                name = st.targets[0].id
+                if not any(isinstance(n, ast.Name) and n.id in bound and id(n) not in inside for n in ast.walk(fn)) and \
+                        not any(isinstance(n, ast.Name) and n.id == name for n in ast.walk(st.value)):
+                    body = [ast.Expr(value=ast.Call(func=ast.Attribute(value=ast.Name(id=name, ctx=ast.Load()), attr="append", ctx=ast.Load()),
+                                                    args=[st.value.elt], keywords=[]))]
+                    for c in reversed(g.ifs):
+                        body = [ast.If(test=c, body=body, orelse=[])]
+                    for n in ast.walk(g.target):
+                        if isinstance(n, (ast.Name, ast.Tuple, ast.List)):
+                            n.ctx = ast.Store()
+                    loop = ast.For(target=g.target, iter=g.iter, body=body, orelse=[], type_comment=None)
+                    stmts[i:i + 1] = [ast.Assign(targets=[ast.Name(id=name, ctx=ast.Store())], value=ast.List(elts=[], ctx=ast.Load())), loop]
+                    i += 1
+            i += 1
+    for fn in [f for f in ast.walk(tree) if isinstance(f, ast.FunctionDef)]:
+        walk(fn.body, fn)
+    return tree
+
+
 VARIANTS = collections.OrderedDict(unparse=[t_unparse], locals=[t_locals], order=[t_order], demorgan=[t_demorgan], hoist=[t_hoist],
-                                   reflect=[t_reflect], dslnest=[t_dslnest], temps=[t_temps], augassign=[t_augassign], hworder=[t_hworder])
+                                   reflect=[t_reflect], dslnest=[t_dslnest], temps=[t_temps], augassign=[t_augassign], hworder=[t_hworder], props=[t_props],
+                                   comp2loop=[t_comp2loop])
 VARIANTS["hworder2"] = [t_order, t_hworder, t_augassign, t_temps]
 VARIANTS["all"] = [t_locals, t_order, t_demorgan, t_hoist, t_reflect, t_dslnest]
 
